@@ -161,6 +161,10 @@ func (w *c20World) aimAmount(t *rapid.T, s *Sim, delegator int, val int, isNode 
 		// n/(T+x) = theta  =>  x = n/theta - T
 		x = nShares.Quo(theta).Sub(T)
 	}
+	if !T.IsZero() && !v.Tokens.IsZero() {
+		// x is in shares; a (un)delegation is given in tokens (they differ once the validator was slashed)
+		x = x.MulInt(v.Tokens).Quo(T)
+	}
 	base := x.TruncateInt64()
 	amt := base + int64(rapid.IntRange(-2, 2).Draw(t, "offset"))
 	if amt <= 0 {
@@ -217,9 +221,25 @@ func c20Property(t *rapid.T) {
 			}
 		}
 		steps := rapid.IntRange(3, 40).Draw(t, "steps")
+		slashes := 0
 		for i := 0; i < steps; i++ {
 			all := append(append([]int{}, w.nodes...), w.thirds...)
-			switch rapid.IntRange(0, 11).Draw(t, "step") {
+			switch rapid.IntRange(0, 12).Draw(t, "step") {
+			case 12:
+				// a validator is slashed (tokens no longer equal delegator shares), at most twice per case
+				if slashes >= 2 {
+					continue
+				}
+				slashes++
+				a := NewAction("slash", 0)
+				a.Target = rapid.IntRange(0, len(s.W.ValAddrs)-1).Draw(t, "slashedVal")
+				a.Extra = map[string]string{"fraction": rapid.SampledFrom([]string{"0.05", "0.01", "0.5"}).Draw(t, "fraction")}
+				if rapid.IntRange(0, 3).Draw(t, "jail") == 0 {
+					a.Extra["jail"] = "1"
+				}
+				if s.Do(a).OK {
+					s.Label("c20-validator-slashed")
+				}
 			case 0, 1, 2:
 				d := rapid.SampledFrom(all).Draw(t, "delegator")
 				a := NewAction("delegate", d)
